@@ -196,7 +196,7 @@ fn tx_op(v: &i64) -> TransactionOp {
 }
 
 /// history symbols: 0..=4 element with that command (timestamps increase with position), 5/6/7
-/// watermark 1/3/5, 8 FAR. One key.
+/// watermark 1/2/4 (2 and 4 are exactly the two commit-after times), 8 FAR. One key.
 fn check_transaction(h: &[usize]) -> Option<Fail> {
     let mut script: Vec<El<(i64, i64)>> = vec![];
     let mut wm = -1i64;
@@ -205,7 +205,7 @@ fn check_transaction(h: &[usize]) -> Option<Fail> {
         match s {
             0..=4 => script.push(StreamElement::Timestamped((0, i as i64 * 10 + s as i64), wm + 1)),
             5..=7 => {
-                let w = [1, 3, 5][s - 5];
+                let w = [1, 2, 4][s - 5];
                 if w <= wm {
                     ok = false;
                 }
@@ -248,7 +248,7 @@ fn check_transaction(h: &[usize]) -> Option<Fail> {
                 }
             }
             5..=7 => {
-                let wv = [1, 3, 5][s - 5];
+                let wv = [1, 2, 4][s - 5];
                 if let Some((_, Some(c))) = &open {
                     if *c < wv {
                         expected.push((i, open.take().unwrap().0));
@@ -288,7 +288,7 @@ fn check_transaction(h: &[usize]) -> Option<Fail> {
         });
         return Some(Fail::new(
             if carried { "c13-tx-carried-over-iteration" } else { "c13-tx-wrong-commit" },
-            format!("transaction history {:?} (0 continue,1 commit,2 commit-after(2),3 commit-after(4),4 discard,5/6/7 watermark 1/3/5,8 end of iteration): got (trigger input, content) {:?}, user logic dictates {:?}", h, got, expected),
+            format!("transaction history {:?} (0 continue,1 commit,2 commit-after(2),3 commit-after(4),4 discard,5/6/7 watermark 1/2/4,8 end of iteration): got (trigger input, content) {:?}, user logic dictates {:?}", h, got, expected),
         ));
     }
     None
